@@ -57,7 +57,8 @@ EXPLANATION = (
     "/ mutable container gets schema.header(..) written, the mutable extra-lease count is incremented exactly on the paths "
     "where the slot is not known to exist (neither n < 4 nor n - 4 < count), _read_lease_record returns unserialize(read) "
     "under owner_num != 0 and None only under owner_num == 0 and raises IndexError only beyond the count, "
-    "_get_num_lease_slots / _enumerate_leases cover 4 + count slots and yield records that are not None, the header field "
+    "_get_num_lease_slots / _enumerate_leases cover 4 + count slots and yield records that are not None (an enumeration composed "
+    "of helper generators / generator expressions / enumerate() / yield from is followed to its one loop over the slots), the header field "
     "accessors return what they unpacked, the serializers pass the record through _to_data / _from_data and hash each "
     "secret into its own field; (12) immutable share offset table: per version the writers emit, the statements only that "
     "version reaches in _parse_offsets / _satisfy_offsets / _desire_offsets bind the table start and field width / format "
@@ -79,7 +80,8 @@ EXPLANATION = (
     "MutableShareFile._write_share_data writes into the data region only after _change_container_size(f, >= offset + len(data)) "
     "or under the fact (branch or assertion) that offset + len(data) fits below the extra-lease offset / inside the existing "
     "data, and every such write (the data, a b'\\x00' * n / bytes(n) fill) ends at or before DATA_OFFSET + offset + len(data) - "
-    "so it cannot land on the extra-lease count and records that follow the data.  Undecided: "
+    "so it cannot land on the extra-lease count and records that follow the data (procedure helpers self.h(f, ..) that grow the "
+    "container or seek relative to DATA_OFFSET are read in place of their call; one that cannot be is an analysis error).  Undecided: "
     "the positional arithmetic of base62 and of Python's base64 module, the section arithmetic of the immutable share "
     "writers (x += size between offsets) and their FileTooLargeError bounds, the offset sanity checks of "
     "Share._satisfy_offsets (share/block hash sizes), the field layout of SDMF/MDMF shares beyond the version dispatch "
@@ -1989,6 +1991,270 @@ def _edge_lin(fnm, n, lab):
         return None
 
 
+class _Rename(ast.NodeTransformer):
+    def __init__(self, names, exprs):
+        self.names, self.exprs = names, exprs
+
+    def visit_Name(self, n):
+        if n.id in self.exprs and isinstance(n.ctx, ast.Load):
+            return ast.copy_location(copy.deepcopy(self.exprs[n.id]), n)
+        if n.id in self.names:
+            return ast.copy_location(ast.Name(id=self.names[n.id], ctx=n.ctx), n)
+        return n
+
+
+def _self_helper(fn, st):
+    """(call, callee) when the statement is nothing but ``self.h(..)`` of a method of fn's class, else None"""
+    if not (isinstance(st, ast.Expr) and isinstance(st.value, ast.Call) and fn.cls is not None):
+        return None
+    c = st.value
+    if not (isinstance(c.func, ast.Attribute) and isinstance(c.func.value, ast.Name) and c.func.value.id == "self"):
+        return None
+    h = fn.cls.lookup(c.func.attr)
+    return (c, h) if h is not None and isinstance(h.node, ast.FunctionDef) else None
+
+
+def _reaches_call(fn, tail, depth=4, seen=None):
+    """does fn (or a self.method it calls, transitively) call something named tail"""
+    seen = set() if seen is None else seen
+    if fn.qual in seen or depth < 0:
+        return False
+    seen.add(fn.qual)
+    for c in [x for x in func_own_nodes(fn) if isinstance(x, ast.Call)]:
+        if call_tail(c) == tail:
+            return True
+        if fn.cls is not None and isinstance(c.func, ast.Attribute) and attr_path(c.func.value) == "self":
+            h = fn.cls.lookup(c.func.attr)
+            if h is not None and _reaches_call(h, tail, depth - 1, seen):
+                return True
+    return False
+
+
+def _inline_helpers(fn, want, rounds=4):
+    """A copy of fn in which every statement ``self.h(args)`` for which want(call, h) holds is replaced by the body of h (its
+    parameters bound to the arguments, its locals renamed apart), repeatedly.  Only helpers that are straight procedures are
+    followed (no return value, no yield, no nested def, plain positional / keyword binding); others stay calls.  fn itself
+    when nothing was followed."""
+    node = copy.deepcopy(fn.node)
+    counter = [0]
+    changed = [False]
+
+    def body_of(c, h):
+        hn = h.node
+        a = hn.args
+        if a.vararg or a.kwarg or a.kwonlyargs or getattr(a, "posonlyargs", None) or hn.decorator_list:
+            return None
+        ps = [x.arg for x in a.args]
+        if not ps or ps[0] != "self" or any(isinstance(x, ast.Starred) for x in c.args) or any(k.arg is None for k in c.keywords):
+            return None
+        ps = ps[1:]
+        bound = dict(zip(ps, c.args))
+        if len(c.args) > len(ps):
+            return None
+        for k in c.keywords:
+            if k.arg not in ps or k.arg in bound:
+                return None
+            bound[k.arg] = k.value
+        if set(bound) != set(ps):
+            return None                      # defaults: not followed
+        body = list(hn.body)
+        if body and isinstance(body[0], ast.Expr) and isinstance(body[0].value, ast.Constant) and isinstance(body[0].value.value, str):
+            body = body[1:]
+        if body and isinstance(body[-1], ast.Return) and body[-1].value is None:
+            body = body[:-1]
+        inner = [x for s in body for x in ast.walk(s)]
+        if not body or any(isinstance(x, (ast.Return, ast.Yield, ast.YieldFrom, ast.FunctionDef, ast.AsyncFunctionDef, ast.Lambda,
+                                          ast.ClassDef, ast.Global, ast.Nonlocal, ast.Await)) for x in inner):
+            return None
+        stored = {x.id for x in inner if isinstance(x, ast.Name) and isinstance(x.ctx, (ast.Store, ast.Del))}
+        counter[0] += 1
+        pre = "_h%d_" % counter[0]
+        names = {x: pre + x for x in stored | set(ps)}
+        exprs, head = {}, []
+        for p in ps:
+            v = bound[p]
+            if isinstance(v, ast.Name) and p not in stored:
+                exprs[p] = v                  # the same variable under another name
+            else:
+                t = ast.Assign(targets=[ast.Name(id=names[p], ctx=ast.Store())], value=copy.deepcopy(v), type_comment=None)
+                head.append(ast.copy_location(t, c))
+        rn = _Rename(names, exprs)
+        out = head + [rn.visit(copy.deepcopy(s)) for s in body]
+        for s in out:
+            ast.fix_missing_locations(s)
+        return out
+
+    class T(ast.NodeTransformer):
+        def visit_FunctionDef(self, n):
+            return n if n is not node else self.generic_visit(n)
+        visit_AsyncFunctionDef = visit_Lambda = visit_ClassDef = lambda self, n: n
+
+        def visit_Expr(self, st):
+            hit = _self_helper(fn, st)
+            if hit is None or not want(*hit):
+                return st
+            b = body_of(*hit)
+            if b is None:
+                return st
+            changed[0] = True
+            return b
+    did = False
+    for _i in range(rounds):
+        changed[0] = False
+        T().visit(node)
+        if not changed[0]:
+            break
+        did = True
+    if not did:
+        return fn
+    ast.fix_missing_locations(node)
+    g = FuncInfo(fn.module, node, fn.qual, fn.cls, fn.parent)
+    g.nested = dict(fn.nested)
+    return g
+
+
+# ---- generators followed: what a lease enumeration hands out ---------------------------------
+class _NoStream(Exception):
+    pass
+
+
+SLOT = "_slot_"
+
+
+class _Stream:
+    """The items an iterable hands out: one pass of ``for SLOT in <it>`` and, per pass, the items [(value, [(test, polarity)])]
+    in terms of SLOT and the names of the outermost function.  exact: every pass hands out exactly one item, unconditionally
+    (then the position enumerate() counts is SLOT, if the passes are range(n))."""
+    def __init__(self, it, items, exact):
+        self.it, self.items, self.exact = it, items, exact
+
+
+def _ssub(e, env):
+    return _Rename({}, env).visit(copy.deepcopy(e)) if env else copy.deepcopy(e)
+
+
+def _bind_target(t, v, env):
+    env = dict(env)
+    if isinstance(t, ast.Name):
+        env[t.id] = v
+    elif isinstance(t, (ast.Tuple, ast.List)) and isinstance(v, (ast.Tuple, ast.List)) and len(t.elts) == len(v.elts) \
+            and not any(isinstance(x, ast.Starred) for x in t.elts):
+        for a, b in zip(t.elts, v.elts):
+            env = _bind_target(a, b, env)
+    else:
+        raise _NoStream("cannot bind %s" % ast.unparse(t))
+    return env
+
+
+def _has_yield(n):
+    return any(isinstance(x, (ast.Yield, ast.YieldFrom)) for x in own_nodes(n))
+
+
+def _stream_expr(fn, e, env, depth):
+    if depth < 0:
+        raise _NoStream("too deep")
+    if isinstance(e, ast.Name) and e.id in env:
+        e, env = env[e.id], {}
+    if isinstance(e, ast.GeneratorExp) and len(e.generators) == 1 and not e.generators[0].is_async:
+        g = e.generators[0]
+        s = _stream_expr(fn, g.iter, env, depth - 1)
+        items = []
+        for (v, cs) in s.items:
+            env2 = _bind_target(g.target, v, env)
+            items.append((_ssub(e.elt, env2), cs + [(_ssub(c, env2), True) for c in g.ifs]))
+        return _Stream(s.it, items, s.exact and not g.ifs)
+    if isinstance(e, ast.Call) and isinstance(e.func, ast.Name) and not e.keywords and len(e.args) == 1 and e.func.id in ("enumerate", "iter"):
+        s = _stream_expr(fn, e.args[0], env, depth - 1)
+        if e.func.id == "iter":
+            return s
+        counts_slots = s.exact and isinstance(s.it, ast.Call) and isinstance(s.it.func, ast.Name) and s.it.func.id == "range" \
+            and len(s.it.args) == 1 and not s.it.keywords
+        pos = ast.Name(id=SLOT if counts_slots else "_position_among_the_items_handed_out_", ctx=ast.Load())
+        return _Stream(s.it, [(ast.Tuple(elts=[pos, v], ctx=ast.Load()), cs) for (v, cs) in s.items], s.exact)
+    if isinstance(e, ast.Call) and isinstance(e.func, ast.Attribute) and attr_path(e.func.value) == "self" and fn.cls is not None:
+        h = fn.cls.lookup(e.func.attr)
+        if h is None or not isinstance(h.node, ast.FunctionDef):
+            raise _NoStream("%s is not a method" % e.func.attr)
+        a = h.node.args
+        ps = [x.arg for x in a.args][1:]
+        if a.vararg or a.kwarg or a.kwonlyargs or e.keywords or len(e.args) != len(ps) or any(isinstance(x, ast.Starred) for x in e.args):
+            raise _NoStream("binding of %s" % e.func.attr)
+        return _stream_func(h, {p_: _ssub(v, env) for p_, v in zip(ps, e.args)}, depth - 1)
+    raise _NoStream("iterable %s" % ast.unparse(e)[:80])
+
+
+def _stream_func(h, env, depth=5):
+    body = list(h.node.body)
+    if body and isinstance(body[0], ast.Expr) and isinstance(body[0].value, ast.Constant) and isinstance(body[0].value.value, str):
+        body = body[1:]
+    env = dict(env)
+    while body and isinstance(body[0], ast.Assign) and len(body[0].targets) == 1 and isinstance(body[0].targets[0], ast.Name) \
+            and not _has_yield(body[0]):
+        env[body[0].targets[0].id] = _ssub(body[0].value, env)
+        body = body[1:]
+    if len(body) == 1 and isinstance(body[0], ast.With) and all(i.optional_vars is None or isinstance(i.optional_vars, ast.Name)
+                                                                for i in body[0].items):
+        body = list(body[0].body)           # a context manager around the loop does not change what is handed out
+    if len(body) != 1:
+        raise _NoStream("%s is not a single loop / return" % h.qual)
+    st = body[0]
+    if isinstance(st, ast.Return) and st.value is not None and not _has_yield(h.node):
+        return _stream_expr(h, st.value, env, depth)
+    if isinstance(st, ast.Expr) and isinstance(st.value, ast.YieldFrom):
+        return _stream_expr(h, st.value.value, env, depth)
+    if not isinstance(st, ast.For) or st.orelse:
+        raise _NoStream("%s is not a single loop / return" % h.qual)
+    it = _ssub(st.iter, env)
+    if isinstance(it, ast.Call) and isinstance(it.func, ast.Name) and it.func.id == "range":
+        if not isinstance(st.target, ast.Name):
+            raise _NoStream("loop target")
+        base = _Stream(it, [(ast.Name(id=SLOT, ctx=ast.Load()), [])], True)
+    else:
+        base = _stream_expr(h, st.iter, env, depth - 1)
+    items, exact = [], base.exact
+    for (v, cs) in base.items:
+        flags = {"early": False}
+        got = _collect(st.body, _bind_target(st.target, v, env), list(cs), flags)
+        items += got
+        exact = exact and len(got) == 1 and got[0][1] == cs and not flags["early"]
+    return _Stream(base.it, items, exact)
+
+
+def _collect(stmts, env, conds, flags):
+    """items handed out by one pass through stmts; (items, falls_through)"""
+    items = []
+    env = dict(env)
+    for i, st in enumerate(stmts):
+        if isinstance(st, ast.Assign) and len(st.targets) == 1 and not _has_yield(st):
+            env = _bind_target(st.targets[0], _ssub(st.value, env), env) if isinstance(st.targets[0], (ast.Name, ast.Tuple)) else env
+        elif isinstance(st, ast.Expr) and isinstance(st.value, ast.Yield) and st.value.value is not None:
+            items.append((_ssub(st.value.value, env), list(conds)))
+        elif isinstance(st, ast.If):
+            t = _ssub(st.test, env)
+            rest = list(conds)
+            for (branch, pol) in ((st.body, True), (st.orelse, False)):
+                if any(isinstance(x, (ast.Assign, ast.AugAssign, ast.AnnAssign, ast.NamedExpr)) for b in branch for x in ast.walk(b)) \
+                        and stmts[i + 1:]:
+                    raise _NoStream("assignment under a condition")
+                items += _collect(branch, env, conds + [(t, pol)], flags)
+                if branch and isinstance(branch[-1], (ast.Continue, ast.Return, ast.Break, ast.Raise)):
+                    rest.append((t, not pol))
+                    flags["early"] = True
+            conds = rest
+        elif isinstance(st, ast.Try):
+            if any(_has_yield(x) for hd in st.handlers for x in hd.body) or any(_has_yield(x) for x in st.orelse + st.finalbody):
+                raise _NoStream("yield in a handler")
+            items += _collect(st.body, env, conds, flags)
+            if stmts[i + 1:] and any(isinstance(x, ast.Assign) for b in st.body for x in ast.walk(b)):
+                raise _NoStream("assignment under try")
+        elif isinstance(st, (ast.Continue, ast.Return, ast.Break, ast.Raise)):
+            flags["early"] = True
+            break
+        elif _has_yield(st) or isinstance(st, (ast.AugAssign, ast.AnnAssign, ast.For, ast.While, ast.With, ast.Delete)):
+            raise _NoStream("statement %s" % type(st).__name__)
+    return items
+
+
 def _rule_records_stay(ctx, idx):
     # 13: the relocation of the extra-lease block when the container grows.  C25.10 decides exactly the condition
     # this property needs (the bytes that were encoded are the bytes found at the place the header names afterwards).
@@ -2009,6 +2275,26 @@ def _rule_records_stay(ctx, idx):
         if len(ps) < 3:
             raise AnchorVanished("%s(f, offset, data)" % fn.qual)
         fp, off, data = ps[:3]
+
+        def passes_file(c):
+            return any(attr_path(a) == fp for a in c.args) or any(attr_path(k.value) == fp for k in c.keywords)
+
+        def data_region_helper(c, h):
+            """a helper that is handed the file and grows the container or positions the file relative to DATA_OFFSET: its
+            statements belong to the write protocol decided here"""
+            if h.name == "_change_container_size" or not passes_file(c):
+                return False
+            if _reaches_call(h, "_change_container_size"):
+                return True
+            return any(isinstance(x, ast.Call) and call_tail(x) == "seek" and any(
+                attr_path(y) == "self.DATA_OFFSET" for a in x.args for y in ast.walk(a)) for x in func_own_nodes(h))
+        fn = _inline_helpers(fn, data_region_helper)
+        for c in [x for x in func_own_nodes(fn) if isinstance(x, ast.Call)]:
+            if isinstance(c.func, ast.Attribute) and attr_path(c.func.value) == "self" and fn.cls is not None:
+                h = fn.cls.lookup(c.func.attr)
+                if h is not None and data_region_helper(c, h):
+                    raise AnalysisError("%s: the helper %s grows the container or writes the data region and cannot be followed "
+                                        "(it returns a value / is not a plain procedure)" % (fn.qual, src(fn, c)))
         cfg = fn.cfg()
         fnm = FlowNorm(fn)
         P0 = Normaliser(Env(None, depth=0))
@@ -2637,7 +2923,32 @@ def _rule_transfer(ctx, idx, F):
         loops = [n for n in func_own_nodes(en) if isinstance(n, ast.For)]
         ok = len(loops) == 1 and norm_plain(loops[0].iter) == norm_src("range(self._get_num_lease_slots(%s))" % ep) \
             and isinstance(loops[0].target, ast.Name)
-        r.require(ok, en, en.loc(), "_enumerate_leases does not visit range(_get_num_lease_slots(%s))" % ep)
+        direct_loop = len(loops) == 1 and isinstance(loops[0].iter, ast.Call) and call_name(loops[0].iter) == "range"
+        if not ok and not direct_loop:
+            # the enumeration is composed of generators (helpers that yield, generator expressions, enumerate, yield from):
+            # follow them to the one loop over the slots and to what is handed out per slot
+            try:
+                stream = _stream_func(en, {})
+            except _NoStream as e:
+                raise AnalysisError("%s: what it hands out cannot be followed (%s)" % (en.qual, e))
+            r.count(len(stream.items))
+            ok = False
+            if r.require(norm_plain(stream.it) == norm_src("range(self._get_num_lease_slots(%s))" % ep), en, en.loc(),
+                         "_enumerate_leases does not visit range(_get_num_lease_slots(%s)) (the generators it is composed of loop "
+                         "over %s)" % (ep, src(en, stream.it))):
+                rec = norm_src("self._read_lease_record(%s, %s)" % (ep, SLOT))
+                want = norm_src("(%s, self._read_lease_record(%s, %s))" % (SLOT, ep, SLOT))
+                r.require(bool(stream.items) and all(norm_plain(v) == want for (v, _cs) in stream.items), en, en.loc(),
+                          "_enumerate_leases yields %s per slot %s ; specified (slot, record of that slot)" % (
+                              [src(en, v) for (v, _cs) in stream.items], SLOT))
+                P = Normaliser(Env(None, depth=0))
+                for (v, cs) in stream.items:
+                    facts = [P.cmp(t, pol) for (t, pol) in cs]
+                    known = any((f[0] == "is not" and {f[1], f[2]} == {"None", rec}) or (f[0] == "truth" and f[1] == rec) for f in facts)
+                    r.require(known, en, en.loc(v), "a slot is yielded without the fact that its record is not None: empty slots "
+                              "are reported and stored leases are not (conditions: %s)" % [(src(en, t), pol) for (t, pol) in cs])
+        else:
+            r.require(ok, en, en.loc(), "_enumerate_leases does not visit range(_get_num_lease_slots(%s))" % ep)
         if ok:
             iv = loops[0].target.id
             ys = [n for n in func_own_nodes(en) if isinstance(n, ast.Yield)]
